@@ -29,6 +29,7 @@ import (
 	"math/big"
 	"os"
 	"runtime/debug"
+	"runtime/pprof"
 	"sort"
 	"strings"
 	"sync"
@@ -691,6 +692,12 @@ func hasDeploy(h []int) bool {
 func main() {
 	debug.SetGCPercent(400)
 	r = vk.New("model_checking")
+	if pf := os.Getenv("C09_PROF"); pf != "" {
+		f, _ := os.Create(pf)
+		pprof.StartCPUProfile(f)
+		defer pprof.StopCPUProfile()
+		time.AfterFunc(60*time.Second, func() { pprof.StopCPUProfile(); f.Close(); os.Exit(3) })
+	}
 	r.SetBudget(150*time.Second, 25*time.Minute)
 
 	if probe {
@@ -765,6 +772,9 @@ func main() {
 	}
 	for _, h := range seqs(deployTheme, replayTheme) {
 		addR(genesis{}, h)
+	}
+	if os.Getenv("C09_PROF") != "" {
+		rjobs = nil
 	}
 	sort.SliceStable(rjobs, func(i, j int) bool { return len(rjobs[i].h) < len(rjobs[j].h) })
 	var rdone atomic.Int64
